@@ -11,6 +11,10 @@ import collections
 import copy
 
 
+class ServerRefused(Exception):
+    """The server rejects one event (an internal error of its own); the connection is unaffected."""
+
+
 class LostConnection(OSError):
     """What a spec-2.4 server raises when send() is called on a lost connection."""
 
@@ -277,6 +281,9 @@ class Conn(object):
         self.cancel_send_at = ()         # send indices at which the awaiting task is cancelled
         self.fail_recv_at = ()           # receive() call indices that raise (connection reset)
         self.reject_close_codes = ()     # close codes the server refuses (Autobahn/Daphne: "invalid close code")
+        self.refuse_send_at = ()         # send indices at which the server refuses that one event (the
+                                         # connection stays up; nothing was delivered)
+        self.refused_sends = 0
         self.rejected_closes = 0
         self.send_cancelled = False
         self.hold = False                # harness may hold back deliveries
@@ -343,6 +350,11 @@ class Conn(object):
                 and event.get('code') in self.reject_close_codes and not self.lost):
             self.rejected_closes += 1
             raise Exception('Invalid close code %r (server-side validation)' % (event.get('code'),))
+        if (idx in self.refuse_send_at and not self.lost and isinstance(event, dict)
+                and not str(event.get('type', '')).endswith('.close')):
+            self.refused_sends += 1
+            self.sim.chooser.note_fired('send_refused')
+            raise ServerRefused('the server could not process this event')
         if idx in self.cancel_send_at:
             # the server cancels the application task while it awaits send()
             # (shutdown, or a server that cancels on disconnect)
